@@ -34,3 +34,382 @@ c.ensures("protocol_version_to_kmip_version(result.request_header.protocol_versi
 c.ensures("result.request_header.batch_count.value == len(batch_items) and "
           "same_items(result.batch_items, batch_items)", name="batch-count-and-items-as-given")
 c.bounded_note = "0..2 batch items (the function only counts and forwards them)"
+
+
+# ---------------------------------------------------------------- one-item operations of KMIPProxy
+# _activate / _destroy / _revoke: the result object handed to ProxyKmipClient carries exactly the
+# status, reason and message of the first batch item of the decoded response, and the identifier of
+# its payload (None without payload); exactly one request is sent, with one batch item of the
+# operation asked for.  The wire is abstracted by three assumed contracts: _send_message (encodes
+# and writes: C01/C02 + c_protocol), _receive_message (framing: c_protocol), ResponseMessage.read
+# (decoder: C01) which yields at least one batch item - what the client relies on and does not check.
+ITEM = ('obj', 'kmip.core.messages.messages.ResponseBatchItem',
+        {'operation': 'opaque', 'result_status': 'opaque', 'result_reason': ('oneof', 'none', 'opaque'),
+         'result_message': ('oneof', 'none', 'opaque'),
+         'response_payload': ('oneof', 'none', ('obj', 'kmip.core.primitives.Struct', {'unique_identifier': 'opaque'}))})
+
+c = contract(K + "_send_message").props('C19')
+c.args(self='opaque', message='opaque')
+c.effect(lambda P, loc: P.event('client.send', loc['message']))
+c.may_raise_anything()
+c.trust("encodes the request under self.kmip_version and writes it (codec: C01/C02; framing and socket: "
+        "contracts/c_protocol.py); may raise")
+
+c = contract(K + "_receive_message").props('C19')
+c.args(self='opaque')
+c.returns('opaque')
+c.may_raise_anything()
+c.trust("reads one framed response (contracts/c_protocol.py: KMIPProtocol.read); may raise")
+
+c = contract("kmip.core.messages.messages.ResponseMessage.read").props('C19')
+c.args(self=('obj', 'kmip.core.messages.messages.ResponseMessage', {}), istream='opaque', kmip_version='opaque')
+c.may_raise_anything()
+c.modifies("self.response_header", "self.batch_items")
+c.modifies_kinds = {"self.response_header": 'opaque', "self.batch_items": ('list', ITEM, (1, 2))}
+c.effect(lambda P, loc: P.ghost.__setitem__('__response_message__', loc['self']))
+c.trust("decoder of the response message (C01/ttlvsym); here: raises, or yields a response with at least one "
+        "batch item (the client indexes item 0 without checking; a response with batch count 0 is not modelled)")
+
+
+def _result_is_the_first_item(fields):
+    """fields: result attribute -> attribute of the response payload it must be (None without payload)"""
+    def t(ev, outcome, exc, path, I):
+        if outcome != 'return':
+            return True
+        res = I.ghost_globals.get('__result__')
+        msg = path.ghost.get('__response_message__')
+        if msg is None:
+            return "the response was never decoded on a returning path"
+        it = msg.fields['batch_items'][0]
+        for f in ('result_status', 'result_reason', 'result_message'):
+            if res.fields.get(f) is not it.fields.get(f):
+                return "the result's %s is not the one the server sent in the first batch item" % f
+        pay = it.fields.get('response_payload')
+        for rf, pf in fields.items():
+            want = None if pay is None else pay.fields.get(pf)
+            got = res.fields.get(rf)
+            if got is want or (want is None and isinstance(got, list) and not got):
+                continue
+            return "the result's %s is not the %s of the response payload" % (rf, pf)
+        return True
+    return t
+
+
+def _one_request_of(op):
+    def t(ev, outcome, exc, path, I):
+        sends = [e for e in ev if e[0] == 'client.send']
+        if outcome == 'return' and len(sends) != 1:
+            return "%d requests sent for one call" % len(sends)
+        for e in sends:
+            items = I.getattr(e[1], 'batch_items')
+            if len(items) != 1:
+                return "the request carries %d batch items" % len(items)
+            o = I.getattr(I.getattr(items[0], 'operation'), 'value')
+            if getattr(o, 'name', None) != op:
+                return "the request's operation is %r, not %s" % (o, op)
+        return True
+    return t
+
+
+contract(K + "_build_request_message", variant="inline").inlined()
+contract(K + "_build_protocol_version", variant="inline").inlined()
+PAYLOAD_FIELDS = ('unique_identifier', 'object_type', 'secret', 'template_attribute', 'unique_identifiers', 'mac_data')
+ITEM[2]['response_payload'] = ('oneof', 'none', ('obj', 'kmip.core.primitives.Struct',
+                                                 {f: 'opaque' for f in PAYLOAD_FIELDS}))
+UID = ('oneof', 'none', 'nonempty_str')
+OPS = [
+    ("_activate", "ACTIVATE", dict(unique_identifier=UID), {'uuid': 'unique_identifier'}),
+    ("_destroy", "DESTROY", dict(unique_identifier=UID), {'uuid': 'unique_identifier'}),
+    ("_revoke", "REVOKE", dict(unique_identifier=UID, revocation_reason=('enum', 'kmip.core.enums.RevocationReasonCode'),
+                               revocation_message=('oneof', 'none', 'str'), compromise_occurrence_date='none'),
+     {'unique_identifier': 'unique_identifier'}),
+    ("_get", "GET", dict(unique_identifier=UID, key_format_type='none', key_compression_type='none',
+                         key_wrapping_specification='none'),
+     {'uuid': 'unique_identifier', 'object_type': 'object_type', 'secret': 'secret'}),
+    ("_create", "CREATE", dict(object_type=('enum', 'kmip.core.enums.ObjectType'),
+                               template_attribute=('obj', 'kmip.core.objects.TemplateAttribute', {})),
+     {'uuid': 'unique_identifier', 'object_type': 'object_type', 'template_attribute': 'template_attribute'}),
+    ("_mac", "MAC", dict(data='bytes', unique_identifier=UID, cryptographic_parameters='none'),
+     {'uuid': 'unique_identifier', 'mac_data': 'mac_data'}),
+    ("_register", "REGISTER", dict(object_type=('enum', 'kmip.core.enums.ObjectType'),
+                                   template_attribute=('obj', 'kmip.core.objects.TemplateAttribute', {}),
+                                   secret=('obj', 'kmip.core.secrets.SymmetricKey', {})),
+     {'uuid': 'unique_identifier', 'template_attribute': 'template_attribute'}),
+    ("_locate", "LOCATE", dict(maximum_items=('oneof', 'none', 'int32nat'), storage_status_mask='none',
+                               object_group_member='none', attributes='none', offset_items=('oneof', 'none', 'int32nat')),
+     {'uuids': 'unique_identifiers'}),
+]
+for fn, op, kinds, fields in OPS:
+    c = contract(K + fn).props('C19')
+    c.use_variant("inline")
+    c.args(self=NO_LOGIN, credential='none', **kinds)
+    c.may_raise_anything()
+    c.trace("result-is-what-the-first-batch-item-says", _result_is_the_first_item(fields))
+    c.trace("one-request-with-one-item-of-the-operation", _one_request_of(op))
+
+
+# ---------------------------------------------------------------- send_request_payload
+# (DeleteAttribute / SetAttribute / ModifyAttribute of ProxyKmipClient go through it)
+def V(k):
+    return ('obj', 'kmip.core.primitives.Base', {'value': k})
+
+
+ATTR_PAYLOADS = ('oneof',
+                 ('obj', 'kmip.core.messages.payloads.DeleteAttributeResponsePayload', {}),
+                 ('obj', 'kmip.core.messages.payloads.SetAttributeResponsePayload', {}),
+                 ('obj', 'kmip.core.messages.payloads.ModifyAttributeResponsePayload', {}),
+                 ('obj', 'kmip.core.messages.payloads.ActivateResponsePayload', {}))
+ITEM_V = ('obj', 'kmip.core.messages.messages.ResponseBatchItem',
+          {'operation': V(('enum', 'kmip.core.enums.Operation')), 'result_status': V(('enum', 'kmip.core.enums.ResultStatus')),
+           'result_reason': V(('enum', 'kmip.core.enums.ResultReason')), 'result_message': V('str'),
+           'response_payload': ATTR_PAYLOADS})
+c = contract(K + "_send_and_receive_message", variant="for-send-request-payload").props('C19')
+c.args(self='opaque', request='opaque')
+c.effect(lambda P, loc: P.event('client.send', loc['request']))
+c.returns(('obj', 'kmip.core.messages.messages.ResponseMessage', {'batch_items': ('list', ITEM_V, (0, 1, 2))}))
+c.may_raise_anything()
+c.trust("one request written, one response read and decoded (proved piecewise: _send_message / _receive_message / "
+        "ResponseMessage.read as in the one-item operations); the response holds any number of batch items, each with "
+        "status, reason and message present (a failure without message is known finding F16)")
+
+
+SRM = K + "_send_and_receive_message#for-send-request-payload"
+
+
+def _failure_is_reported_exactly(ev, outcome, exc, path, I):
+    import z3
+    if outcome == 'return':
+        if path.ghost.get('results', {}).get(SRM) is None:
+            return "a payload is returned although nothing was received"
+    if outcome == 'raise' and exc is not None and exc.cls.__name__ == 'OperationFailure':
+        resp = path.ghost.get('results', {}).get(SRM)
+        if resp is None:
+            return "OperationFailure without a response"
+        it = resp.fields['batch_items'][0]
+        want = [it.fields[f].fields['value'] for f in ('result_status', 'result_reason', 'result_message')]
+        got = [exc.fields.get('status'), exc.fields.get('reason'), exc.args[0] if exc.args else None]
+        if any(g is not w for g, w in zip(got, want)):
+            return "the failure raised does not carry exactly the status, reason and message the server sent"
+    return True
+
+
+def _success_only_for_the_matching_single_item(ev, outcome, exc, path, I):
+    import z3
+    from kmip.core import enums
+    if outcome != 'return':
+        return True
+    resp = path.ghost.get('results', {}).get(SRM)
+    res = I.ghost_globals.get('__result__')
+    items = resp.fields['batch_items']
+    if len(items) != 1:
+        return "a payload is returned for a response with %d batch items" % len(items)
+    it = items[0]
+    st = it.fields['result_status'].fields['value']
+    ok = I.truth(I.models.equals(I, st, enums.ResultStatus.SUCCESS))
+    if not (ok is True or (ok is not False and path.is_valid(ok))):
+        return "a payload is returned although the status may not be Success"
+    op = I.truth(I.models.equals(I, it.fields['operation'].fields['value'], I.ghost_globals['__operation__']))
+    if not (op is True or (op is not False and path.is_valid(op))):
+        return "a payload is returned although the response answers another operation"
+    if res is not it.fields['response_payload']:
+        return "the payload returned is not the one of the response's batch item"
+    return True
+
+
+c = contract(K + "send_request_payload").props('C19')
+c.use_variant("for-send-request-payload")
+c.args(self=NO_LOGIN, operation=('enum', 'kmip.core.enums.Operation'),
+       payload=('oneof', ('obj', 'kmip.core.messages.payloads.DeleteAttributeRequestPayload', {}),
+                ('obj', 'kmip.core.messages.payloads.SetAttributeRequestPayload', {}),
+                ('obj', 'kmip.core.messages.payloads.ModifyAttributeRequestPayload', {}),
+                ('obj', 'kmip.core.messages.payloads.ActivateRequestPayload', {})),
+       credential='none')
+c.let('__operation__', 'operation')
+c.may_raise_anything()
+c.trace("failure-raised-with-exact-status-reason-message", _failure_is_reported_exactly)
+c.trace("payload-returned-only-for-the-single-successful-matching-item", _success_only_for_the_matching_single_item)
+
+
+# ---------------------------------------------------------------- batch-item processors
+# (create_key_pair, rekey_key_pair, query, discover_versions, get_attributes, get_attribute_list go
+# through _process_batch_items): each processor turns one decoded batch item - successful with a
+# payload, or failed without one - into a result carrying exactly its status, reason, message and
+# payload fields, and raises nothing.
+def _processed_item(fields):
+    def t(ev, outcome, exc, path, I):
+        if outcome != 'return':
+            return True
+        res = I.ghost_globals.get('__result__')
+        it = I.ghost_globals.get('__item__')
+        for f in ('result_status', 'result_reason', 'result_message'):
+            if res.fields.get(f) is not it.fields.get(f):
+                return "the result's %s is not the batch item's" % f
+        pay = it.fields.get('response_payload')
+        for rf, pf in fields.items():
+            want = None if pay is None else pay.fields.get(pf)
+            got = res.fields.get(rf)
+            if got is want or (want is None and isinstance(got, list) and not got):
+                continue
+            return "the result's %s is not the %s of the response payload" % (rf, pf)
+        return True
+    return t
+
+
+PROCESSORS = [
+    ("_process_get_attributes_batch_item", {'uuid': 'unique_identifier', 'attributes': 'attributes'}),
+    ("_process_get_attribute_list_batch_item", {'uid': 'unique_identifier', 'names': 'attribute_names'}),
+    ("_process_create_key_pair_batch_item",
+     {'private_key_uuid': 'private_key_unique_identifier', 'public_key_uuid': 'public_key_unique_identifier',
+      'private_key_template_attribute': 'private_key_template_attribute',
+      'public_key_template_attribute': 'public_key_template_attribute'}),
+    ("_process_rekey_key_pair_batch_item",
+     {'private_key_uuid': 'private_key_unique_identifier', 'public_key_uuid': 'public_key_unique_identifier',
+      'private_key_template_attribute': 'private_key_template_attribute',
+      'public_key_template_attribute': 'public_key_template_attribute'}),
+    ("_process_query_batch_item",
+     {'operations': 'operations', 'object_types': 'object_types', 'vendor_identification': 'vendor_identification',
+      'server_information': 'server_information', 'application_namespaces': 'application_namespaces',
+      'extension_information': 'extension_information'}),
+    ("_process_discover_versions_batch_item", {'protocol_versions': 'protocol_versions'}),
+    ("_process_response_error", {}),
+]
+for fn, fields in PROCESSORS:
+    item = ('obj', 'kmip.core.messages.messages.ResponseBatchItem',
+            {'operation': 'opaque', 'result_status': 'opaque', 'result_reason': ('oneof', 'none', 'opaque'),
+             'result_message': ('oneof', 'none', 'opaque'),
+             'response_payload': ('oneof', 'none', ('obj', 'kmip.core.primitives.Struct',
+                                                    {f: 'opaque' for f in set(fields.values())}))})
+    c = contract(K + fn).props('C19')
+    c.args(self=NO_LOGIN, batch_item=item)
+    c.let('__item__', 'batch_item')
+    c.raises(None)
+    c.trace("result-carries-exactly-what-the-batch-item-says", _processed_item(fields))
+
+
+# ---------------------------------------------------------------- operations answering with a dictionary
+# rekey, derive_key, check, encrypt, decrypt, sign, signature_verify: the dictionary carries the
+# status of the first batch item, its reason and message when present (else None), and the payload's
+# fields when there is a payload; a failed response (no payload) is reported, never an AttributeError.
+def OPTV(k):
+    return ('oneof', 'none', V(k))
+
+
+def _dict_result(fields):
+    def t(ev, outcome, exc, path, I):
+        if outcome != 'return':
+            return True
+        res = I.ghost_globals.get('__result__')
+        resp = path.ghost.get('results', {}).get(K + "_send_and_receive_message#dictionary-operations")
+        if resp is None:
+            return "a result is returned although nothing was received"
+        it = resp.fields['batch_items'][0]
+        if not isinstance(res, dict):
+            return "the result is not a dictionary"
+        if res.get('result_status') is not it.fields['result_status'].fields['value']:
+            return "result_status is not the status the server sent"
+        for f in ('result_reason', 'result_message'):
+            w = it.fields[f]
+            want = None if w is None else w.fields['value']
+            if res.get(f) is not want:
+                return "%s is not what the server sent" % f
+        pay = it.fields.get('response_payload')
+        for rf, pf in fields.items():
+            if pay is None:
+                if rf in res:
+                    return "%s reported without a payload" % rf
+                continue
+            want = pay.fields.get(pf)
+            if rf in res and res[rf] is not want and not isinstance(res[rf], list):
+                return "%s is not the payload's %s" % (rf, pf)
+        return True
+    return t
+
+
+def _raises_only_from_the_wire(ev, outcome, exc, path, I):
+    """Whatever escapes the operation was raised while sending / receiving / decoding (a trusted
+    callee that may raise): nothing is raised for a response that was received and decoded, and
+    nothing before the request is sent (every argument value the signature allows is accepted)."""
+    if outcome != 'raise':
+        return True
+    WIRE = ('_send_and_receive_message', '_send_message', '_receive_message', 'ResponseMessage.read')
+    calls = [i for i, e in enumerate(ev) if e[0] == 'call' and e[1].endswith(WIRE)]
+    if not calls:
+        return "%s is raised before anything is sent: %s" % (exc.cls.__name__, (exc.args[0] if exc.args else ''))
+    if any(e[0] == 'return' and e[1].endswith(WIRE) for e in ev[calls[-1]:]):
+        return "%s is raised although a response was received and decoded: %s" % (
+            exc.cls.__name__, (exc.args[0] if exc.args and isinstance(exc.args[0], str) else ''))
+    return True
+
+
+DICT_OPS = [
+    ("rekey", dict(uuid='none', offset='none', template_attribute='none'),
+     {'unique_identifier': 'unique_identifier', 'template_attribute': 'template_attribute'}),
+    ("derive_key", dict(object_type=('enum', 'kmip.core.enums.ObjectType'), unique_identifiers=('const', ['1']),
+                        derivation_method=('enum', 'kmip.core.enums.DerivationMethod'),
+                        derivation_parameters=('obj', 'kmip.core.attributes.DerivationParameters', {}),
+                        template_attribute=('obj', 'kmip.core.objects.TemplateAttribute', {})),
+     {'unique_identifier': 'unique_identifier', 'template_attribute': 'template_attribute'}),
+    ("check", dict(uuid='none', usage_limits_count='none',
+                   cryptographic_usage_mask=('oneof', 'none', ('const', [])), lease_time='none'),
+     {'unique_identifier': 'unique_identifier', 'usage_limits_count': 'usage_limits_count', 'lease_time': 'lease_time'}),
+    ("encrypt", dict(data='bytes', unique_identifier='none', cryptographic_parameters='none', iv_counter_nonce='none'),
+     {'unique_identifier': 'unique_identifier', 'data': 'data', 'iv_counter_nonce': 'iv_counter_nonce'}),
+    ("decrypt", dict(data='bytes', unique_identifier='none', cryptographic_parameters='none', iv_counter_nonce='none'),
+     {'unique_identifier': 'unique_identifier', 'data': 'data'}),
+    ("signature_verify", dict(message='bytes', signature='bytes', unique_identifier='none', cryptographic_parameters='none'),
+     {'unique_identifier': 'unique_identifier', 'validity_indicator': 'validity_indicator'}),
+    ("sign", dict(data='bytes', unique_identifier='none', cryptographic_parameters='none'),
+     {'unique_identifier': 'unique_identifier', 'signature': 'signature_data'}),
+]
+_ALLF = sorted(set(v for _, _, f in DICT_OPS for v in f.values()) | {'cryptographic_usage_mask'})
+ITEM_D = ('obj', 'kmip.core.messages.messages.ResponseBatchItem',
+          {'operation': 'opaque', 'result_status': V(('enum', 'kmip.core.enums.ResultStatus')),
+           'result_reason': OPTV(('enum', 'kmip.core.enums.ResultReason')), 'result_message': OPTV('str'),
+           'response_payload': ('oneof', 'none', ('obj', 'kmip.core.primitives.Struct',
+                                                  dict({f: 'opaque' for f in _ALLF}, cryptographic_usage_mask='none')))})
+c = contract(K + "_send_and_receive_message", variant="dictionary-operations").props('C19')
+c.args(self='opaque', request='opaque')
+c.effect(lambda P, loc: P.event('client.send', loc['request']))
+c.returns(('obj', 'kmip.core.messages.messages.ResponseMessage', {'batch_items': ('list', ITEM_D, (1, 2))}))
+c.may_raise_anything()
+c.trust("one request written, one response read and decoded (as above); at least one batch item; reason and message "
+        "optional (a success carries neither), payload absent in a failure")
+for fn, kinds, fields in DICT_OPS:
+    c = contract(K + fn).props('C19')
+    c.use_variant("dictionary-operations")
+    c.args(self=NO_LOGIN, credential='none', **kinds)
+    c.may_raise_anything()
+    c.trace("dictionary-carries-exactly-what-the-first-batch-item-says", _dict_result(fields))
+    c.trace("raises-only-when-the-wire-does", _raises_only_from_the_wire)
+
+
+for fn, op, kinds, fields in OPS:
+    contract(K + fn).trace("raises-only-when-the-wire-does", _raises_only_from_the_wire)
+contract(K + "send_request_payload")    # (raises TypeError / InvalidMessage / OperationFailure by design: own clauses above)
+
+
+# ---------------------------------------------------------------- _process_batch_items
+def _one_result_per_item_in_order(ev, outcome, exc, path, I):
+    """An arbitrary iteration of the loop over the response's batch items: exactly one processor is
+    applied and exactly its result is appended (so the results come in the order of the items)."""
+    if outcome != 'iteration':
+        return True
+    rets = [e for e in ev if e[0] == 'return' and '._process_' in e[1] and e[1].endswith(('_batch_item', '_response_error'))]
+    apps = [e for e in ev if e[0] == 'list.append']
+    if len(rets) != 1 or len(apps) != 1:
+        return "%d processors applied, %d results appended for one batch item" % (len(rets), len(apps))
+    if id(apps[0][2]) != rets[0][2]:
+        return "what is appended is not the processor's result"
+    return True
+
+
+PITEM = ('obj', 'kmip.core.messages.messages.ResponseBatchItem',
+         {'operation': OPTV(('enum', 'kmip.core.enums.Operation')), 'result_status': 'opaque',
+          'result_reason': ('oneof', 'none', 'opaque'), 'result_message': ('oneof', 'none', 'opaque'),
+          'response_payload': ('oneof', 'none', 'opaque')})
+c = contract(K + "_process_batch_items").props('C19')
+c.args(self=NO_LOGIN, response=('obj', 'kmip.core.messages.messages.ResponseMessage', {'batch_items': ('slist', PITEM)}))
+c.loop(0, "True", havoc={'results': ('accumulator', 'opaque')})
+c.raises('ValueError')
+c.trace("one-result-per-batch-item-in-order", _one_result_per_item_in_order)
+c.notes.append("ValueError: a batch item of an operation this dispatcher has no processor for")
